@@ -58,7 +58,7 @@ PROPS["C12"] = make_prop("C12", [lambda ev, tier, seed: session_stage(ev, "C12",
 PROPS["C14"] = make_prop("C14", [ES("C14", "C14", "nodes")],
     "five extension functions over all (x, L) pairs of element values, arrays of them, non-arrays and missing members; also negated and with $-rooted argument; " + NT,
     COMMON_ASSUME + ["1 vs 1.0 pairs are excluded (the property does not say which equality)"])
-PROPS["C15"] = make_prop("C15", [ES("C15", "C01", "j"), ES("C15", "C04", "j"), ES("C15", "C05", "j"), ES("C15", "C10", "j")],
+PROPS["C15"] = make_prop("C15", [ES("C15", "C15", "nodes,order,paths", mode="paths"), ES("C15", "C01", "j"), ES("C15", "C04", "j"), ES("C15", "C05", "j"), ES("C15", "C10", "j")],
     "every behaviour executed on serde_json::Value and on the second Queryable implementation J (insertion-ordered objects, separate int/float variants); paths and values compared position by position; " + NT,
     COMMON_ASSUME + ["J (harness/src/j.rs) is a faithful implementation of the trait as documented"])
 
